@@ -32,7 +32,8 @@ MODEL_HEADER = 'Require Import GT.MachineModel.\n'
 MODELLED = ['ConstantCostEdit (Match/Replace/Remove/Insert)', 'KeyValuePairEdit (sum combinator; XMLElementEdit, DataClassEdit, '
             'PyObjEdit are the same combinator)', 'repeat_until_tightened', 'FixedLengthSequenceEdit', 'EditDistance',
             'StringEdit']
-TRACE_ONLY = ['EditCollection / FixedKeyDictNodeEdit', 'WeightedBipartiteMatcher', 'MultiSetEdit', 'Edge',
+TRACE_ONLY = ['EditCollection / FixedKeyDictNodeEdit', 'WeightedBipartiteMatcher', 'MultiSetEdit (incl. directly built '
+              'MultiSetNodes with repeated elements: ext stream)', 'Edge',
               'IterativeTighteningSearch', 'PossibleEdits']
 
 CLS = {'KeyValuePairEdit': 'CSum', 'XMLElementEdit': 'CSum', 'DataClassEdit': 'CSum', 'PyObjEdit': 'CSum',
@@ -179,6 +180,10 @@ def _finish_all():
 
 def _build(item):
     import graphtage as g
+    if item.get('ext'):
+        # directly built MultiSetNodes ({"__mset__": [...]}, elements may repeat), alone or nested: trace-only stream
+        opts = g.BuildOptions(**sl.options_kwargs(*item['opts']))
+        return sl.build_ext(item['a'], opts), sl.build_ext(item['b'], opts)
     a, b, _ = sl.build_pair(item)
     if item.get('kvp'):
         ka, kb, ake = item['kvp']
@@ -202,7 +207,7 @@ def impl_trace(item):
     try:
         a, b = _build(item) if mode != 'sed' else (None, None)
         try:
-            ta, tb = (sl.ser_tree(a), sl.ser_tree(b)) if mode != 'sed' else (None, None)
+            ta, tb = (sl.ser_tree(a), sl.ser_tree(b)) if mode != 'sed' and not item.get('ext') else (None, None)
         except ValueError:
             ta = tb = None
         if mode == 'active':
@@ -250,6 +255,9 @@ def impl_trace(item):
         _finish_all()
     except BaseException as ex:  # noqa
         import traceback
+        if type(ex).__name__ == 'ItemGuardTimeout':
+            import signal
+            signal.setitimer(signal.ITIMER_REAL, 0)      # worker.py re-arms its guard every second: the traces are still to be reported
         tbk = traceback.extract_tb(ex.__traceback__)
         crashed = {'exc': type(ex).__name__, 'msg': str(ex)[:200],
                    'where': [f'{os.path.basename(fr.filename)}:{fr.lineno}:{fr.name}' for fr in tbk[-3:]]}
@@ -374,6 +382,40 @@ def deep_pair(rng, depth):
     return a, b
 
 
+# unbalanced multisets with a repeated element on the larger side and elements of unequal size: before the matching
+# is known MultiSetEdit.bounds() brackets the surplus by the cheapest / costliest removals counted WITH multiplicity
+EXT_UNBALANCED = [
+    ({'__mset__': [1, 1, 'abcdef']}, {'__mset__': ['abcdeg']}), ({'__mset__': [3, 3, 3]}, {'__mset__': []}),
+    ({'__mset__': ['abcdeg']}, {'__mset__': [1, 1, 'abcdef']}), ({'__mset__': []}, {'__mset__': [3, 3, 3]}),
+    ({'__mset__': [7, 7, 7, 'hello world']}, {'__mset__': ['hello wörld', 12345]}),
+    ({'__mset__': ['x', 'x', 'x', [1, 2, 3, 4]]}, {'__mset__': [[1, 2, 4]]}),
+    ([0, {'__mset__': [5, 5, 'abcdefgh', 'abcdefgh']}], [0, {'__mset__': ['abcdefgx']}]),
+    ({'k': {'__mset__': [1, 1, 1, 'longer text']}}, {'k': {'__mset__': ['longer test', 2]}}),
+    ({'__mset__': [{'__mset__': [1, 1, 'abc']}, 9, 9]}, {'__mset__': [{'__mset__': ['abd']}]}),
+]
+
+
+def gen_ext_unbalanced(rng):
+    """a multiset that repeats small elements next to a big one, against a smaller multiset holding a near copy of the big one"""
+    big = rng.choice(['abcdef', 'hello world', [1, 2, 3], 'aaaaaaaX', [['x'], 'yz'], 123456789])
+    near = sl.mutate(rng, big)
+    small = rng.choice([1, 'a', True, None, 'xy', 10])
+    larger = [small] * rng.randint(2, 4) + [big] * rng.randint(1, 2) + ([sl.gen_scalar(rng)] if rng.random() < 0.4 else [])
+    smaller = [near] + ([small] if rng.random() < 0.3 else []) + ([sl.gen_scalar(rng)] if rng.random() < 0.3 else [])
+    rng.shuffle(larger)
+    a, b = {'__mset__': larger}, {'__mset__': smaller}
+    if rng.random() < 0.5:
+        a, b = b, a
+    r = rng.random()
+    if r < 0.2:
+        return [a, 1], [b, 1]
+    if r < 0.35:
+        return {'k': a}, {'k': b}
+    if r < 0.45:
+        return {'__mset__': [a, 4, 4]}, {'__mset__': [b, 4]}
+    return a, b
+
+
 def gen_items(tier, rng):
     items = []
     path = os.path.join(common.VERIF, 'corpus', 'C04.jsonl')
@@ -415,6 +457,13 @@ def gen_items(tier, rng):
                       'kvp': [ka, kb, True]})
     for st_, tt_ in [('a', 'a'), ('', ''), ('abc', 'abc'), ('ab', ''), ('', 'ab'), ('abc', 'axc'), ('kitten', 'sitting')]:
         items.append({'a': st_, 'b': tt_, 'opts': ['auto', 'on'], 'mode': 'sed'})
+    n_ext = 70 if q else 700
+    ext_pairs = list(sl.EXT_FIXED_PAIRS) + EXT_UNBALANCED
+    for k in range(n_ext):             # directly built multisets with repeated elements (trace-only, no model)
+        ext_pairs.append(sl.gen_ext_pair(rng) if k % 3 else gen_ext_unbalanced(rng))
+    for k, (a, b) in enumerate(ext_pairs):
+        items.append({'a': a, 'b': b, 'opts': list(sl.OPTION_SETS[k % 9]), 'mode': 'passive' if k % 4 == 3 else 'active',
+                      'ext': True})
     for k in range(n_search):          # IterativeTighteningSearch / PossibleEdits over alternative edits
         a = sl.gen_value(rng, 2, 3)
         bs = [sl.mutate(rng, a) for _ in range(rng.randint(1, 4))]
@@ -434,17 +483,35 @@ def open_findings():
     return fs
 
 
-KF_CLASSES = []      # (finding id, Gallina class predicate) of the OPEN findings: none
+KF_CLASSES = [('D36', 'kf_matcher_fails')]      # (finding id, Gallina class predicate); applied to ext cases only
+EXT_GUARD = 8          # wall-clock seconds per ext item (D36 can make repeat_until_tightened spin for ever)
+TIMEOUT_EXCS = ('ItemGuardTimeout',)
+
+
+def timed_out(o):
+    """did the monitored drive of this run fail to terminate (wall-clock guard or call budget)?"""
+    c = o.get('crashed')
+    return bool(c) and (c.get('exc') in TIMEOUT_EXCS or 'call budget exceeded' in c.get('msg', ''))
 
 
 def evaluate(run, wd, st, items, tag='cases'):
-    res = common.run_impl('pC04', 'impl_trace', items, timeout_item=180)
+    res = [None] * len(items)
+    plain = [i for i, it in enumerate(items) if not it.get('ext')]
+    ext = [i for i, it in enumerate(items) if it.get('ext')]
+    for idx, guard in ((plain, 180), (ext, EXT_GUARD)):
+        if idx:
+            for i, r in zip(idx, common.run_impl('pC04', 'impl_trace', [items[i] for i in idx], timeout_item=guard)):
+                res[i] = r
     ok = []
     stats = {'steps': 0, 'objects': 0, 'events': 0, 'classes': {}, 'crashed': 0, 'root_classes': {}, 'max_calls': 0,
-             'oversized_skipped': 0}
+             'oversized_skipped': 0, 'ext_cases': 0, 'ext_timeouts': 0}
     for it, r in zip(items, res):
         nontriv = it['a'] != it['b'] and (isinstance(it['a'], (list, dict)) or isinstance(it['b'], (list, dict)))
         run.count([it['a'], it['b'], it['opts'], it.get('mode'), it.get('kvp'), it.get('bs')], nontriv)
+        if 'ok' not in r and it.get('ext') and (r.get('exc') in TIMEOUT_EXCS or r.get('timeout')):
+            # the guard fired outside the monitored drive (while the edit was being constructed): a run that hangs
+            r = {'ok': {'a': None, 'b': None, 'root': False, 'crashed': {'exc': 'ItemGuardTimeout', 'msg': r.get('msg', '')},
+                        'objs': [], 'steps': 0, 'calls': 0, 'unstepped_objects': 0}}
         if 'ok' not in r:
             run.violation({'kind': 'internal-error', 'input': it, 'result': r,
                            'note': 'the worker failed outside the monitored drive'})
@@ -455,6 +522,9 @@ def evaluate(run, wd, st, items, tag='cases'):
             stats['oversized_skipped'] += 1      # too large for one Gallina term (none in the quick tier)
             continue
         ok.append((it, o))
+        if it.get('ext'):
+            stats['ext_cases'] += 1
+            stats['ext_timeouts'] += 1 if timed_out(o) else 0
         stats['steps'] += o['steps']
         stats['objects'] += len(o['objs'])
         stats['crashed'] += 1 if o['crashed'] else 0
@@ -516,6 +586,18 @@ def describe(wd, it, o, tag):
             'objects': [{'class': objs[i][0], 'events': objs[i][1]} for i in order[:25]]}
 
 
+def classify(it, o, i, kfs, open_ids):
+    """Open known findings a failing case belongs to.  D36 (duplicates collapse in WeightedBipartiteMatcher) is only
+    reachable through directly built multisets (ext cases) and shows as (a) a drive that does not terminate or
+    (b) a WeightedBipartiteMatcher object whose own trace violates a clause (Gallina kf_matcher_fails)."""
+    if not it.get('ext'):
+        return []
+    known = [k for (k, _), idx in zip(KF_CLASSES, kfs) if i in idx and k in open_ids]
+    if not known and 'D36' in open_ids and timed_out(o):
+        known = ['D36']
+    return known
+
+
 def check(tier, seed):
     run = common.Run(PROP, tier, seed)
     wd = common.Workdir(PROP)
@@ -529,7 +611,7 @@ def check(tier, seed):
         reported = {}
         n_viol = 0
         for i in bad_holds:
-            known = [k for (k, _), idx in zip(KF_CLASSES, kfs) if i in idx and k in open_ids]
+            known = classify(ok[i][0], ok[i][1], i, kfs, open_ids)
             if known:
                 reported.setdefault(known[0], []).append(ok[i][0])
                 continue
@@ -562,6 +644,8 @@ def check(tier, seed):
         run.cov['max_calls_per_item'] = stats['max_calls']
         run.cov['oversized_skipped'] = stats['oversized_skipped']
         run.cov['corr_skipped_large_pairs'] = stats.get('corr_skipped_large', 0)
+        run.cov['ext_multiset_cases'] = stats['ext_cases']
+        run.cov['ext_runs_cut_by_guard'] = stats['ext_timeouts']
         run.cov['known_finding_cases'] = {k: len(v) for k, v in reported.items()}
         run.cov['modelled_classes'] = MODELLED
         run.cov['trace_only_classes'] = TRACE_ONLY
@@ -571,7 +655,7 @@ def check(tier, seed):
                 more = gen_items('thorough', random.Random(seed * 7919 + s2))[:1500]
                 ok2, bh2, kfs2, bc2, _, _ = evaluate(run, wd, st, more, tag=f'search{s2}')
                 for i in bh2:
-                    known = [k for (k, _), idx in zip(KF_CLASSES, kfs2) if i in idx and k in open_ids]
+                    known = classify(ok2[i][0], ok2[i][1], i, kfs2, open_ids)
                     if not known:
                         run.violation({'kind': 'holds_C04-false', **describe(wd, ok2[i][0], ok2[i][1], f's{s2}_{i}')})
                         found = True
